@@ -1690,6 +1690,9 @@ class ListProxy(list):
         if isinstance(index, (int, slice)):
             if self._parameter.names:
                 self._warn('[index] = object')
+            if isinstance(index, slice):
+                # consumed twice below: an iterator would be exhausted the first time
+                object = list(object)
             with self._trigger():
                 super().__setitem__(index, object)
                 self._parameter._objects[index] = object
@@ -1803,19 +1806,23 @@ class ListProxy(list):
         if not self._parameter.names:
             self._parameter.names = _named_objs(self)
         objects = objects.items() if isinstance(objects, dict) else objects
+        # every item is checked before any is applied: a malformed item must
+        # not leave the earlier ones applied (and unannounced)
+        pairs = []
+        for i, o in enumerate(objects):
+            if not isinstance(o, collections.abc.Sequence):
+                raise TypeError(
+                    f'cannot convert dictionary update sequence element #{i} to a sequence'
+                )
+            o = tuple(o)
+            n = len(o)
+            if n != 2:
+                raise ValueError(
+                    f'dictionary update sequence element #{i} has length {n}; 2 is required'
+                )
+            pairs.append(o)
         with self._trigger():
-            for i, o in enumerate(objects):
-                if not isinstance(o, collections.abc.Sequence):
-                    raise TypeError(
-                        f'cannot convert dictionary update sequence element #{i} to a sequence'
-                    )
-                o = tuple(o)
-                n = len(o)
-                if n != 2:
-                    raise ValueError(
-                        f'dictionary update sequence element #{i} has length {n}; 2 is required'
-                    )
-                k, v = o
+            for k, v in pairs:
                 self.__setitem__(k, v, trigger=False)
             for k, v in items.items():
                 self.__setitem__(k, v, trigger=False)
